@@ -186,6 +186,8 @@ pub struct ExecResult {
     pub steps: usize,
     pub branching_seen: bool,
     pub states: Vec<u64>,
+    /// threads of this execution were left behind: the process-wide hook state is no longer clean
+    pub hung: bool,
 }
 
 pub trait Strategy {
@@ -251,7 +253,7 @@ pub fn execute(cfg: PoolCfg, strat: &mut dyn Strategy, max_steps: usize) -> Exec
         })
         .unwrap();
 
-    let mut res = ExecResult { schedule: Vec::new(), violation: None, inconclusive: None, pruned: false, steps: 0, branching_seen: false, states: Vec::new() };
+    let mut res = ExecResult { schedule: Vec::new(), violation: None, inconclusive: None, pruned: false, steps: 0, branching_seen: false, states: Vec::new(), hung: false };
     let mut d = 0usize;
     loop {
         // wait until every expected thread is parked (or exited)
@@ -399,7 +401,20 @@ pub fn execute(cfg: PoolCfg, strat: &mut dyn Strategy, max_steps: usize) -> Exec
     // finish freely
     sched.set_free();
     verif::install(None);
-    let _ = acceptor.join();
+    // the pool shuts down on its own once every thread runs freely; if it does not (a worker
+    // asleep where no probe sees it), leave the threads behind and say so: nothing may hang here
+    let t_free = Instant::now();
+    while !acceptor.is_finished() && t_free.elapsed() < Duration::from_secs(20) {
+        std::thread::sleep(Duration::from_millis(5));
+    }
+    if acceptor.is_finished() {
+        let _ = acceptor.join();
+    } else {
+        res.hung = true;
+        if res.violation.is_none() && res.inconclusive.is_none() {
+            res.inconclusive = Some("the pool did not shut down within 20 s after the schedule was released".into());
+        }
+    }
     res
 }
 
@@ -499,6 +514,7 @@ pub fn shard_main(tier: Tier, seed: u64, shard: usize, nshards: usize) -> i32 {
     let mut inc = |k: &str, n: u64, out: &mut Value| {
         out[k] = json!(out[k].as_u64().unwrap_or(0) + n);
     };
+    let mut poisoned = false;
     for (ci, cfg) in cfgs.iter().enumerate() {
         if ci % nshards != shard {
             continue;
@@ -514,6 +530,10 @@ pub fn shard_main(tier: Tier, seed: u64, shard: usize, nshards: usize) -> i32 {
             inc("dfs_executions", 1, &mut out);
             inc("steps", r.steps as u64, &mut out);
             record(&r, cfg, "dfs", &mut schedules, &mut states, &mut nontrivial, &mut violations, &mut samples, &mut out);
+            if r.hung {
+                poisoned = true;
+                break;
+            }
             if !dfs.backtrack() {
                 exhausted = true;
                 break;
@@ -523,6 +543,9 @@ pub fn shard_main(tier: Tier, seed: u64, shard: usize, nshards: usize) -> i32 {
             }
         }
         inc(if exhausted { "exhausted_configs" } else { "capped_configs" }, 1, &mut out);
+        if poisoned {
+            break;
+        }
         // random walks (larger configurations benefit most)
         let mut rw = RandomWalk { rng: Rng::lane(seed, 5000 + ci as u64) };
         for _ in 0..rand_n {
@@ -534,8 +557,16 @@ pub fn shard_main(tier: Tier, seed: u64, shard: usize, nshards: usize) -> i32 {
             inc("random_executions", 1, &mut out);
             inc("steps", r.steps as u64, &mut out);
             record(&r, cfg, "random", &mut schedules, &mut states, &mut nontrivial, &mut violations, &mut samples, &mut out);
+            if r.hung {
+                poisoned = true;
+                break;
+            }
+        }
+        if poisoned {
+            break;
         }
     }
+    out["stopped_after_hung_execution"] = json!(poisoned);
     out["schedules"] = json!(schedules.into_iter().collect::<Vec<u64>>());
     out["states"] = json!(states.into_iter().collect::<Vec<u64>>());
     out["nontrivial"] = json!(nontrivial.into_iter().collect::<Vec<u64>>());
